@@ -27,7 +27,15 @@ type dirBox struct {
 	failAt  int
 	short   int // bytes written before ENOSPC
 	maxB    int
-	fired   int // injected disk faults that really fired
+	fired   int  // injected disk faults that really fired
+	reuse   bool // keep the same DirHandler object across sessions (a long-running program)
+	// deferNow: proposals for these MIDs are answered Defer by the wrapper
+	// (an operator's or size-limit policy in front of the mailbox)
+	deferNow map[string]bool
+	// failAnswerAt: while the n-th proposal of this session is answered, the
+	// inbox cannot be examined (the next open and the next stat fail with EACCES)
+	failAnswerAt int
+	answers      int
 }
 
 func newDirBox(name string, hist *mbox.History, fs *simfs.FS) *dirBox {
@@ -63,8 +71,11 @@ func (d *dirBox) Seed(mid string, raw []byte) {
 func (d *dirBox) NextSession() {
 	d.session++
 	d.calls = 0
-	// a fresh handler per session: what survives is the disk (restart)
-	d.h = mailbox.NewDirHandler(d.root, false)
+	d.answers = 0
+	if !d.reuse {
+		// a fresh handler per session: what survives is the disk (restart)
+		d.h = mailbox.NewDirHandler(d.root, false)
+	}
 }
 
 func (d *dirBox) mids(folder string) []string {
@@ -147,7 +158,21 @@ func (d *dirBox) GetInboundAnswer(p fbb.Proposal) fbb.ProposalAnswer {
 	if d.maxB < 1 {
 		d.maxB = 1
 	}
+	d.answers++
+	if d.deferNow[p.MID()] {
+		d.hist.Record(mbox.Event{Station: d.name, Session: d.session, Kind: "answer", MID: p.MID(), Answer: byte(fbb.Defer)})
+		return fbb.Defer
+	}
+	armed := d.failAnswerAt > 0 && d.answers == d.failAnswerAt
+	if armed {
+		d.fs.ResetLog()
+		d.fs.SetFaults(simfs.Fault{Kind: "eacces-open", Nth: 0}, simfs.Fault{Kind: "eacces-stat", Nth: 0})
+	}
 	a := d.h.GetInboundAnswer(p)
+	if armed {
+		d.fired += len(d.fs.Fired())
+		d.fs.SetFaults()
+	}
 	d.hist.Record(mbox.Event{Station: d.name, Session: d.session, Kind: "answer", MID: p.MID(), Answer: byte(a)})
 	return a
 }
